@@ -25,8 +25,8 @@ func init() {
 }
 
 type c04Write struct {
-	Data    []byte `json:"d"` // base64 in JSON: chunks may cut multi-byte runes
-	PauseMs int    `json:"p"` // pause after this write
+	Data    []byte `json:"d"`           // base64 in JSON: chunks may cut multi-byte runes
+	PauseMs int    `json:"p"`           // pause after this write
 	StallMs int    `json:"s,omitempty"` // the consumer stops taking lines for this long, beginning just before this write
 }
 
